@@ -29,6 +29,7 @@ def stepLine (w : World) (line : String) : World × String :=
       -- account cannot cover is skipped by the executor
       (w, match toks with
           | [_, d] => if d = "0" then "ok" else if d.startsWith "-" then "?" else "panic"
+          | [_, _, "dup"] => "ok"     -- both spellings are valid owners; the funded genesis is accepted
           | _ => "bad-op")
     else if t.startsWith "g." then (w, ".")
     else if t.startsWith "s." then
